@@ -2,12 +2,12 @@
 # tools/seed_reeval.sh -- re-run tools/seed_eval.py for every seeded/<name>/ (after generator changes:
 # a seed that was detected must still be); prints one line per seed, summary in seeded/REEVAL.txt
 cd "$(dirname "$0")/.."
-: > seeded/REEVAL.txt
+: > ${REEVAL_OUT:-seeded/REEVAL.txt}
 for d in seeded/*/; do
   n=$(basename $d); p=$(echo $n | cut -c1-3)
   extra=""
-  case $n in C02-r2-2) extra="--checks=C02,C16";; C05-r3-3) extra="--checks=C05,C02";; C10-r3-2) extra="--checks=C10,C09";; esac
+  case $n in C02-r2-2) extra="--checks=C02,C16";; C05-r3-3) extra="--checks=C05,C02";; C10-r3-2) extra="--checks=C10,C09";; C10-r2-3) extra="--checks=C10,C13";; esac
   cp -r $d /tmp/reeval_src_$n
-  tools/seed_eval.py $p /tmp/reeval_src_$n $n $extra 2>&1 | tail -1 | tee -a seeded/REEVAL.txt
+  tools/seed_eval.py $p /tmp/reeval_src_$n $n $extra 2>&1 | tail -1 | tee -a ${REEVAL_OUT:-seeded/REEVAL.txt}
   rm -rf /tmp/reeval_src_$n
 done
